@@ -361,6 +361,75 @@ impl<'tcx> Dumper<'tcx> {
         format!("{{{},\"l\":{},\"x\":{}}}", core, line, exp)
     }
 
+    fn mir_json(&self, def: DefId, body: &Body<'tcx>, out: &mut String) {
+        // locals
+        out.push_str("\"locals\":[");
+        for (i, ld) in body.local_decls.iter().enumerate() {
+            if i > 0 {
+                out.push(',');
+            }
+            let adt = match self.adt_of(ld.ty) {
+                Some(d) => q(&self.path(d)),
+                None => "null".to_string(),
+            };
+            let _ = write!(out, "[{},{}]", q(&self.ty_str(ld.ty)), adt);
+        }
+        out.push_str("],\"vars\":[");
+        let mut first = true;
+        for vdi in body.var_debug_info.iter() {
+            if let VarDebugInfoContents::Place(p) = &vdi.value {
+                if !first {
+                    out.push(',');
+                }
+                first = false;
+                let _ = write!(out, "[{},{}]", q(&vdi.name.to_string()), self.place(body, p));
+            }
+        }
+        out.push_str("],\"blocks\":[");
+        for (bi, bb) in body.basic_blocks.iter_enumerated() {
+            if bi.as_u32() > 0 {
+                out.push(',');
+            }
+            out.push_str("{\"s\":[");
+            let mut firsts = true;
+            for st in bb.statements.iter() {
+                let (_, l) = self.span_loc(st.source_info.span);
+                let x = st.source_info.span.from_expansion();
+                let s = match &st.kind {
+                    StatementKind::Assign(box (p, rv)) => Some(format!(
+                        "[\"=\",{},{},{},{}]",
+                        self.place(body, p),
+                        self.rvalue(body, rv),
+                        l,
+                        x
+                    )),
+                    StatementKind::SetDiscriminant { place, variant_index } => Some(format!(
+                        "[\"setdiscr\",{},{},{},{}]",
+                        self.place(body, place),
+                        variant_index.as_u32(),
+                        l,
+                        x
+                    )),
+                    _ => None,
+                };
+                if let Some(s) = s {
+                    if !firsts {
+                        out.push(',');
+                    }
+                    firsts = false;
+                    out.push_str(&s);
+                }
+            }
+            out.push_str("],\"t\":");
+            match &bb.terminator {
+                Some(t) => out.push_str(&self.terminator(def, body, t)),
+                None => out.push_str("{\"k\":\"none\"}"),
+            }
+            let _ = write!(out, ",\"c\":{}}}", bb.is_cleanup);
+        }
+        out.push(']');
+    }
+
     fn body(&self, def: DefId, out: &mut String) {
         let tcx = self.tcx;
         let kind = tcx.def_kind(def);
@@ -429,70 +498,17 @@ impl<'tcx> Dumper<'tcx> {
             parent_fn,
             body.arg_count
         );
-        // locals
-        out.push_str("\"locals\":[");
-        for (i, ld) in body.local_decls.iter().enumerate() {
-            if i > 0 {
+        self.mir_json(def, body, out);
+        // promoted constants (e.g. `&SliceElement::Ellipsis` used as an operand)
+        out.push_str(",\"promoted\":[");
+        let promoted = tcx.promoted_mir(def);
+        for (pi, pb) in promoted.iter().enumerate() {
+            if pi > 0 {
                 out.push(',');
             }
-            let adt = match self.adt_of(ld.ty) {
-                Some(d) => q(&self.path(d)),
-                None => "null".to_string(),
-            };
-            let _ = write!(out, "[{},{}]", q(&self.ty_str(ld.ty)), adt);
-        }
-        out.push_str("],\"vars\":[");
-        let mut first = true;
-        for vdi in body.var_debug_info.iter() {
-            if let VarDebugInfoContents::Place(p) = &vdi.value {
-                if !first {
-                    out.push(',');
-                }
-                first = false;
-                let _ = write!(out, "[{},{}]", q(&vdi.name.to_string()), self.place(body, p));
-            }
-        }
-        out.push_str("],\"blocks\":[");
-        for (bi, bb) in body.basic_blocks.iter_enumerated() {
-            if bi.as_u32() > 0 {
-                out.push(',');
-            }
-            out.push_str("{\"s\":[");
-            let mut firsts = true;
-            for st in bb.statements.iter() {
-                let (_, l) = self.span_loc(st.source_info.span);
-                let x = st.source_info.span.from_expansion();
-                let s = match &st.kind {
-                    StatementKind::Assign(box (p, rv)) => Some(format!(
-                        "[\"=\",{},{},{},{}]",
-                        self.place(body, p),
-                        self.rvalue(body, rv),
-                        l,
-                        x
-                    )),
-                    StatementKind::SetDiscriminant { place, variant_index } => Some(format!(
-                        "[\"setdiscr\",{},{},{},{}]",
-                        self.place(body, place),
-                        variant_index.as_u32(),
-                        l,
-                        x
-                    )),
-                    _ => None,
-                };
-                if let Some(s) = s {
-                    if !firsts {
-                        out.push(',');
-                    }
-                    firsts = false;
-                    out.push_str(&s);
-                }
-            }
-            out.push_str("],\"t\":");
-            match &bb.terminator {
-                Some(t) => out.push_str(&self.terminator(def, body, t)),
-                None => out.push_str("{\"k\":\"none\"}"),
-            }
-            let _ = write!(out, ",\"c\":{}}}", bb.is_cleanup);
+            out.push('{');
+            self.mir_json(def, pb, out);
+            out.push('}');
         }
         out.push_str("]}");
     }
